@@ -57,6 +57,7 @@ type Global struct {
 	Timeout  int32
 	Branches []*Branch
 	BeginSeq uint64
+	EndSeq   uint64 // event sequence number at which the global transaction ended (locks released)
 	Sess     int
 	// request log per xid, in arrival order: "begin","commit","rollback"
 	Requests []string
@@ -246,6 +247,9 @@ func (tc *TC) conflict(xid string, keys []string) bool {
 }
 
 func (tc *TC) releaseLocks(xid string) {
+	if g := tc.Globals[xid]; g != nil && g.EndSeq == 0 {
+		g.EndSeq = tc.Sim.Seq()
+	}
 	for k, o := range tc.Locks {
 		if o == xid {
 			delete(tc.Locks, k)
